@@ -3,7 +3,7 @@
 (* section is exercised for every residue 0..511 of the section length modulo the block size.  *)
 (* From one base object (1 point, 1 frame whose first byte in the data section is non-zero) a   *)
 (* user parameter of k integers with a description of d characters is added (record size 2k+d   *)
-(* + constant, k = 0..255, d = 0..1: all 512 residues), then the object is saved and loaded.    *)
+(* + constant, k = 0..255, d = 0..2: all 512 residues), then the object is saved and loaded.    *)
 (* TLC evaluates IOInv (round trip, self-consistency, idempotence) in every state; every         *)
 (* transition is replayed on real files (saved bytes = writer model bytes).                      *)
 EXTENDS EzApi, Json
@@ -24,7 +24,8 @@ Base0 ==
 BaseObj == IF FromLoaded THEN ReaderModel(WriterModel(Base0)).obj ELSE Base0
 BaseHist == <<RateOp, DeclOp, FrameOp>> \o (IF FromLoaded THEN <<[op |-> "Reload", path |-> ReloadPath]>> ELSE <<>>)
 Filler(k, d) == [g |-> gUSR, p |-> [n |-> nFILL, d |-> [i \in 1..d |-> 100], l |-> 0, sets |-> <<[t |-> TINT, v |-> [i \in 1..k |-> i - 100], dim |-> <<>>, scalar |-> 0]>>]]
-MC_UserParams == [i \in 1..(2 * (KMax + 1)) |-> Filler((i - 1) \div 2, (i - 1) % 2)]
+\* (a single integer is written as a scalar, one byte shorter: descriptions of 0..2 characters close the gap it leaves)
+MC_UserParams == [i \in 1..(3 * (KMax + 1)) |-> Filler((i - 1) \div 3, (i - 1) % 3)]
 AlignInit ==
   /\ obj = BaseObj /\ callers = [k \in {} |-> EmptyFrame]
   /\ hist = BaseHist /\ lastOp = BaseHist[Len(BaseHist)] /\ lastOut = "ok" /\ lastSets = <<>> /\ lastRes = <<>> /\ inScope = TRUE
